@@ -71,7 +71,9 @@ for sid in ids:
     json.dump(meta, open(os.path.join(d, "meta.json"), "w"), indent=1)
     ok = checks.get(prop, {}).get("exit") == 1 or sid in NOT_DETECTED_BY_DESIGN
     rows.append((sid, prop, meta.get("summary", "").replace("\n", " ")[:150], meta.get("needs", "").replace("\n", " ")[:120],
-                 "yes" if sid not in FIRST_RUN_MISSED else "no", "exit 1: " + ", ".join(checks.get(prop, {}).get("kinds", [])) if ok else "MISSED " + str(checks)))
+                 "yes" if sid not in FIRST_RUN_MISSED else "no",
+                 ("not reported, by design (unspecified zone)" if sid in NOT_DETECTED_BY_DESIGN and checks.get(prop, {}).get("exit") != 1
+                  else "exit 1: " + ", ".join(checks.get(prop, {}).get("kinds", []))) if ok else "MISSED " + str(checks)))
     print(sid, "OK" if ok else "MISSED", checks)
 if not sys.argv[1:]:
     with open(os.path.join(HERE, "seeded", "INDEX.md"), "w") as f:
